@@ -481,8 +481,14 @@ class _Exporter:
 
         sindent = _SINGLE_INDENT * indent
 
+        def to_ref(x):
+            # The right-hand side is a use of the value: an inlined constant has no variable.
+            if isinstance(x, ValueInfoProto):
+                x = x.name
+            return self._translate_onnx_var_ref(x)
+
         def assign(lhs_var: str, rhs_var: str):
-            return f"{sindent}{to_var(lhs_var)} = {to_var(rhs_var)}"
+            return f"{sindent}{to_var(lhs_var)} = {to_ref(rhs_var)}"
 
         if isinstance(lhs, (str, ValueInfoProto)):
             return [assign(lhs, rhs)]
@@ -502,7 +508,7 @@ class _Exporter:
         onnx_iter_var = body.input[0].name
         if has_input(node, 0):
             use_iter_var = True
-            n_iter = self._translate_onnx_var(node.input[0])
+            n_iter = self._translate_onnx_var_ref(node.input[0])
         else:
             use_iter_var = _is_used_in_graph_body(onnx_iter_var, body)
             n_iter = None
